@@ -83,6 +83,15 @@ def suiCore (a b : Nat) : Bool :=
 
 def suiPair (k a b : Nat) : Bool := suiExcluded (k + 1) || suiCore a b
 
+/-! #### C05 clause (i): calendar path = precise path -/
+
+def shuoSlots (r : Nat) : Nat → Nat → Bool
+  | 0, _ => true
+  | n+1, i => Rec.yShuoCode r i == 1 && shuoSlots r n (i + 1)
+
+/-- lunar years 1961..8000: the first day of every month is the civil day of the precisely computed conjunction -/
+def yearShuoOK (y r : Nat) : Bool := Nat.blt y 1961 || Nat.blt 8000 y || shuoSlots r (Rec.yCount r) 0
+
 /-! #### terms (72-bit records, global index 24*(y-1)+i) -/
 
 /-- seconds on the civil time line of a term record -/
@@ -100,5 +109,10 @@ def termPair (_ a b : Nat) : Bool :=
 after (10000, 1) are not representable -/
 def termRepr (g r : Nat) : Bool :=
   (Rec.tDayRaw r == 0) == (g == 0 || Nat.ble 239978 g)
+
+/-- terms of years 1961.. (global index ≥ 24·1960): the calendar-making day is the civil day of the precise instant; the
+library reports an instant in the last half second of a day as 00:00:00 of the next day, which is the only other case -/
+def termCalOK (g r : Nat) : Bool :=
+  Nat.blt g 47040 || Rec.tDayRaw r == 0 || Rec.tQi r == Rec.tDay r || (Rec.tDay r == Rec.tQi r + 1 && Rec.tSod r == 0)
 
 end Tyme
